@@ -808,3 +808,48 @@ package compiler
 //@   at-call "compiler.fieldfn:Visitor.OnSchema" registry: $arg0 == visitor && $arg1 == schema && visitor.newObjects != nil && fresh(visitor.newObjects) && len(visitor.newObjects.order) == 0
 //@   at-call "compiler.(*Visitor).VisitType" entrypoint: $arg0 == visitor && $arg1 == schema && $arg2 == old(schema.EntryPointType) && visitor.newObjects != nil && fresh(visitor.newObjects) && len(visitor.newObjects.order) == 0
 //@   at-call "compiler.(*Visitor).VisitObject" object: $arg0 == visitor && $arg1 == schema
+//
+// name prefixing, the callbacks that do not rename references themselves: discriminator mappings name
+// objects too - every target gets the same prefix as the objects, keys are kept -; a union's mapping is
+// rewritten before its branches are visited and the branches are visited with this visitor and schema;
+// struct fields are visited in place; enum members keep their type and value.
+//@ spec mappingPrefixed(prefix, old, new) = forall k: string :: (new.has(k) ==> old.has(k)) && (old.has(k) ==> new.has(k) && new[k] == prefix + old[k])
+//@ func (*PrefixObjectNames).processDisjunctionMapping
+//@   property C05 C15
+//@   requires pass != nil
+//@   modifies nothing
+//@   ensures  fresh: result != nil && fresh(result)
+//@   ensures  prefixed: mappingPrefixed(pass.Prefix, discriminatorMapping, result)
+//@   loop 0:
+//@     invariant fresh: newMapping != nil && fresh(newMapping)
+//@     invariant done: forall k: string :: newMapping.has(k) == visited(k) && (visited(k) ==> newMapping[k] == pass.Prefix + discriminatorMapping[k])
+//
+//@ func (*PrefixObjectNames).processDisjunction
+//@   property C05 C15
+//@   requires pass != nil && visitor != nil && disjunction.Kind == ast.KindDisjunction
+//@   at-call "compiler.(*Visitor).VisitType" branch: $arg0 == visitor && $arg1 == schema && $arg2 == old(disjunction.Disjunction.Branches)[$i + 1]
+//@   at-call "compiler.(*Visitor).VisitType" mapping: $i >= 0 || mappingPrefixed(old(pass.Prefix), old(disjunction.Disjunction.DiscriminatorMapping), disjunction.Disjunction.DiscriminatorMapping)
+//@   ensures  nobranches: old(len(disjunction.Disjunction.Branches)) == 0 ==> result.1 == nil && mappingPrefixed(old(pass.Prefix), old(disjunction.Disjunction.DiscriminatorMapping), disjunction.Disjunction.DiscriminatorMapping)
+//@   ensures  descended: result.1 == nil ==> ncalls("compiler.(*Visitor).VisitType") >= old(ncalls("compiler.(*Visitor).VisitType")) + old(len(disjunction.Disjunction.Branches))
+//@   loop 0:
+//@     invariant counted: ncalls("compiler.(*Visitor).VisitType") >= old(ncalls("compiler.(*Visitor).VisitType")) + $i + 1
+//@     invariant mapping: $i >= 0 || mappingPrefixed(old(pass.Prefix), old(disjunction.Disjunction.DiscriminatorMapping), disjunction.Disjunction.DiscriminatorMapping)
+//
+//@ func (*PrefixObjectNames).processStruct
+//@   property C05 C15
+//@   requires pass != nil && visitor != nil && structDef.Kind == ast.KindStruct
+//@   at-call "compiler.(*Visitor).VisitStructField" field: $arg0 == visitor && $arg1 == schema && $arg2 == old(structDef.Struct.Fields)[$i + 1]
+//@   ensures  descended: result.1 == nil ==> ncalls("compiler.(*Visitor).VisitStructField") >= old(ncalls("compiler.(*Visitor).VisitStructField")) + old(len(structDef.Struct.Fields))
+//@   loop 0:
+//@     invariant counted: ncalls("compiler.(*Visitor).VisitStructField") >= old(ncalls("compiler.(*Visitor).VisitStructField")) + $i + 1
+//
+//@ func (*PrefixObjectNames).processEnum
+//@   property C05 C15
+//@   requires pass != nil && enum.Kind == ast.KindEnum
+//@   modifies enum.Enum.Values
+//@   ensures  same: result.1 == nil && result.0.Kind == ast.KindEnum && result.0.Enum == enum.Enum
+//@   ensures  members: len(enum.Enum.Values) == old(len(enum.Enum.Values)) && (forall v: int :: 0 <= v && v < len(enum.Enum.Values) ==> enum.Enum.Values[v].Type == old(enum.Enum.Values[v].Type) && enum.Enum.Values[v].Value == old(enum.Enum.Values[v].Value))
+//@   loop 0:
+//@     invariant fresh: base(values) != 0 && fresh(values)
+//@     invariant len: len(values) == $i + 1
+//@     invariant members: forall v: int :: 0 <= v && v < len(values) ==> values[v].Type == old(enum.Enum.Values[v].Type) && values[v].Value == old(enum.Enum.Values[v].Value)
